@@ -338,14 +338,19 @@ func (p *Project) transformRename(r *Rename) Query {
 	var newFrom, newTo []string
 	from := r.from
 	to := r.to
+	// wanted is the columns that are required after rename i.
+	// A name can be reused, e.g. rename a to b, b to c, d to b
+	// so it must be updated as we go back through the renames.
+	wanted := p.columns
 	for i := len(to) - 1; i >= 0; i-- {
 		ck := to[i]
 		if p.unique {
 			ck = strings.TrimSuffix(to[i], "_deps")
 		}
-		if slices.Contains(p.columns, ck) || slices.Contains(newFrom, ck) {
+		if slices.Contains(wanted, ck) {
 			newFrom = append(newFrom, from[i])
 			newTo = append(newTo, to[i])
+			wanted = append(slc.Without(wanted, to[i]), from[i])
 		}
 	}
 	slices.Reverse(newFrom)
